@@ -96,6 +96,13 @@ func VerifC10Threads() {
 			want += commits[th][i]
 		}
 		vnd.Assert(tables[i].NumObjects(rt) == want, "C05.threads.no-lost-write")
+		// every committed insert got its own revision; writers of other tables do not disturb it
+		vnd.Assert(tables[i].Revision(rt) == uint64(want), "C09.threads.revision")
+		last := uint64(0)
+		for _, rev := range tables[i].LowerBound(rt, ByRevision[*vobj](0)) {
+			vnd.Assert(rev > last, "C09.threads.revisions-distinct")
+			last = rev
+		}
 	}
 	for _, nt := range newTables {
 		vnd.Assert(nt.NumObjects(rt) == 1, "C05.threads.new-table-write-lost")
